@@ -146,6 +146,12 @@ def directStmts : List BatchOp → List Stmt
   | .dropIndex n :: r => .dropIndex n :: directStmts r
   | _ :: r => directStmts r
 
+/-- Does the batch take the move-and-copy path?  The rule the harness uses to decide whether a failed run is a failed *recreate*
+    (C11's subject): `recreate='always'`, or under `'auto'` some queued operation other than `create_index` / `drop_index` / an
+    `add_column` without a clause default — evaluated on the queue as `toimpl` fills it (`expandOps`). -/
+def recreates (tableName : String) (always : Bool) (ops : List BatchOp) : Bool :=
+  always || (expandOps tableName ops).any opForcesRecreate
+
 structure Outcome where
   recreated : Bool
   trace : List Stmt
